@@ -48,31 +48,32 @@ NcCat3 == { << <<4, 1, -1, 2, 0>>, <<1, 3, 2, 1, 1>>, <<-1, 2, 5, 0, 3>>, <<2, 1
             << <<1, 2, 0, 3, 1>>, <<2, 1, -2, 0, 2>>, <<0, -2, 2, 1, 0>>, <<3, 0, 1, 1, -1>>, <<1, 2, 0, -1, 2>> >>,
             << <<9, 2, 1, 3, 2>>, <<2, 8, -1, 1, 4>>, <<1, -1, 7, 2, 2>>, <<3, 1, 2, 10, 5>>, <<2, 4, 2, 5, 11>> >> }
 
-\* one set per covariance shape (scalar, vector, matrix, 3-stack)
+\* A tuple of sets, one per family (never a union of big sets: TLC's \cup is quadratic, and constant
+\* definitions are evaluated once per worker).  All members of one set have the same type.
 VarGrid ==
   IF Level = 1 THEN
    << Scalars(-2..5),
-      Vectors(2, FALSE, -1..3) \cup Vectors(3, FALSE, {-1, 0, 2, 3})
-         \cup Vectors(2, TRUE, {-1, 0, 2, 3}) \cup Vectors(3, TRUE, {0, 1, 3}),
-      Matrices(2, AllSym(2, 0..3, -2..2)) \cup Matrices(3, AllSym(3, {0, 1, 3}, {-1, 0, 2}))
-         \cup NcMatrices(2, AllSym(2, {1, 3}, {-1, 0, 2}), {-1, 2}, NB3)
-         \cup NcMatrices(3, Cat3, {-1, 2}, {<<2, 1, 3>>, <<1, -1, 4>>}),
-      Triples(-2..6) \cup Stacks(2, FALSE, AllSym(2, {1, 3}, {-1, 2}))
-         \cup Stacks(2, TRUE, NcCat2) \cup Stacks(3, FALSE, Cat3) \cup Stacks(3, TRUE, NcCat3) >>
+      Vectors(2, FALSE, -1..3), Vectors(3, FALSE, {-1, 0, 2, 3}),
+      Vectors(2, TRUE, {-1, 0, 2, 3}), Vectors(3, TRUE, {0, 1, 3}),
+      Matrices(2, AllSym(2, 0..3, -2..2)), Matrices(3, AllSym(3, {0, 1, 3}, {-1, 0, 2})),
+      NcMatrices(2, AllSym(2, {1, 3}, {-1, 0, 2}), {-1, 2}, NB3),
+      NcMatrices(3, Cat3, {-1, 2}, {<<2, 1, 3>>, <<1, -1, 4>>}),
+      Triples(-2..6), Stacks(2, FALSE, AllSym(2, {1, 3}, {-1, 2})),
+      Stacks(2, TRUE, NcCat2), Stacks(3, FALSE, Cat3), Stacks(3, TRUE, NcCat3) >>
   ELSE IF Level = 2 THEN
    << Scalars(-3..8),
-      Vectors(2, FALSE, -2..5) \cup Vectors(3, FALSE, -2..4) \cup Vectors(4, FALSE, {-1, 0, 2, 3})
-         \cup Vectors(2, TRUE, -1..4) \cup Vectors(3, TRUE, {-1, 0, 2, 3}),
-      Matrices(2, AllSym(2, -1..4, -3..3)) \cup Matrices(3, AllSym(3, {0, 1, 3}, -2..2))
-         \cup Matrices(4, AllSym(4, {1, 3}, {-1, 2}))
-         \cup NcMatrices(2, AllSym(2, 0..3, -1..2), {-1, 2}, NB3)
-         \cup NcMatrices(3, AllSym(3, {1, 3}, {-1, 2}), {-1, 2}, {<<2, 1, 3>>}),
-      Triples(-4..12) \cup Stacks(2, FALSE, AllSym(2, {0, 1, 3}, {-2, 1}))
-         \cup Stacks(2, TRUE, NcCat2 \cup NcSym(2, {<< <<2, -1>>, <<-1, 5>> >>}, {0, 3}, {<<2, 1, 3>>}))
-         \cup Stacks(3, FALSE, Cat3 \cup AllSym(3, {2}, {-1, 1}))
-         \cup Stacks(3, TRUE, NcCat3) >>
+      Vectors(2, FALSE, -2..5), Vectors(3, FALSE, -2..4), Vectors(4, FALSE, {-1, 0, 2, 3}),
+      Vectors(2, TRUE, -1..4), Vectors(3, TRUE, {-1, 0, 2, 3}),
+      Matrices(2, AllSym(2, -1..4, -3..3)), Matrices(3, AllSym(3, {0, 1, 3}, -2..2)),
+      Matrices(4, AllSym(4, {1, 3}, {-1, 2})),
+      NcMatrices(2, AllSym(2, 0..3, -1..2), {-1, 2}, NB3),
+      NcMatrices(3, AllSym(3, {1, 3}, {-1, 2}), {-1, 2}, {<<2, 1, 3>>}),
+      Triples(-4..12), Stacks(2, FALSE, AllSym(2, {0, 1, 3}, {-2, 1})),
+      Stacks(2, TRUE, NcCat2 \cup NcSym(2, {<< <<2, -1>>, <<-1, 5>> >>}, {0, 3}, {<<2, 1, 3>>})),
+      Stacks(3, FALSE, Cat3 \cup AllSym(3, {2}, {-1, 1})),
+      Stacks(3, TRUE, NcCat3) >>
   ELSE IF Level = 3 THEN      \* every symmetric 3 x 3 matrix with entries -2..3 (46 656)
-   << {}, {}, Matrices(3, AllSym(3, -2..3, -2..3)), {} >>
+   << Matrices(3, AllSym(3, -2..3, -2..3)) >>
   ELSE <<>>
 
 (* ---------------- evaluation arrays with NaN marks ------------------------ *)
@@ -101,25 +102,23 @@ G1(s, m, a, b) == 8 * s + 4 * m - 3 * a + b - 9
 G2(s, m, a, b) == ((s * 7 + m * 5 + a * 3 + b * 11) % 9) - 4
 G3(s, m, a, b) == (s - 2) * (m + a) + b * b - 3
 
-MeanQ2 == {MeanRec(2, 2, 2, Mask2(ev, msk)) : ev \in Arr2(3, 2, {-1, 0, 2}), msk \in SampleMasks3}
-  \cup {MeanRec(2, 2, 3, Mask2(ev, msk)) : ev \in Arr2(2, 3, {-1, 2}), msk \in {{}, {<<1, 0, 0, 0>>}, {<<2, 0, 0, 0>>}}}
-MeanQ3 == {MeanRec(2, 3, 2, Mask3(ev, msk)) : ev \in Arr3(2, 2, 2, {-1, 2}), msk \in Masks3D}
-  \cup {MeanRec(1, 3, 2, Mask3(ev, msk)) : ev \in Arr3(1, 2, 3, {-1, 2}), msk \in MasksFixed}
-MeanQ4 == {MeanRec(2, 4, 2, Mask4(Gen4(3, 2, 2, 2, G1), msk)) : msk \in Masks4D}
-  \cup {MeanRec(2, 4, 3, Mask4(Gen4(3, 3, 2, 2, G2), msk)) : msk \in Masks4D}
-  \cup {MeanRec(2, 4, 2, Mask4(Gen4(3, 2, 2, 3, G3), msk)) : msk \in Masks4D}
-\* one set per number of dimensions (2, 3, 4)
 MeanGrid ==
-  IF Level = 3 THEN <<>>
-  ELSE IF Level = 1 THEN << MeanQ2, MeanQ3, MeanQ4 >>
-  ELSE IF Level = 2 THEN
-   << MeanQ2 \cup {MeanRec(2, 2, 2, Mask2(ev, msk)) : ev \in Arr2(3, 2, {-2, 0, 1, 3}), msk \in SampleMasks3},
-      MeanQ3 \cup {MeanRec(2, 3, 2, Mask3(ev, msk)) : ev \in Arr3(2, 2, 2, {-1, 0, 3}), msk \in Masks3D}
-         \cup {MeanRec(1, 3, 2, Mask3(ev, msk)) : ev \in Arr3(1, 2, 3, {-1, 0, 2, 5}), msk \in MasksFixed}
-         \cup {MeanRec(1, 3, 3, Mask3(ev, msk)) : ev \in Arr3(1, 3, 3, {-1, 2}), msk \in MasksFixed},
-      MeanQ4 \cup {MeanRec(2, 4, 3, Mask4(Gen4(3, 3, 3, 2, G1), msk)) : msk \in Masks4D}
-         \cup {MeanRec(2, 4, 2, Mask4(Gen4(3, 2, 2, 2, G3), msk)) :
-                  msk \in SUBSET {<<1, 0, 0, 0>>, <<2, 0, 1, 0>>, <<1, 0, 2, 1>>, <<3, 1, 1, 2>>, <<2, 2, 2, 1>>, <<3, 0, 2, 0>>}} >>
+  IF Level = 1 \/ Level = 2 THEN
+   << {MeanRec(2, 2, 2, Mask2(ev, msk)) : ev \in Arr2(3, 2, {-1, 0, 2}), msk \in SampleMasks3},
+      {MeanRec(2, 2, 3, Mask2(ev, msk)) : ev \in Arr2(2, 3, {-1, 2}), msk \in {{}, {<<1, 0, 0, 0>>}, {<<2, 0, 0, 0>>}}},
+      {MeanRec(2, 3, 2, Mask3(ev, msk)) : ev \in Arr3(2, 2, 2, {-1, 2}), msk \in Masks3D},
+      {MeanRec(1, 3, 2, Mask3(ev, msk)) : ev \in Arr3(1, 2, 3, {-1, 2}), msk \in MasksFixed},
+      {MeanRec(2, 4, 2, Mask4(Gen4(3, 2, 2, 2, G1), msk)) : msk \in Masks4D},
+      {MeanRec(2, 4, 3, Mask4(Gen4(3, 3, 2, 2, G2), msk)) : msk \in Masks4D},
+      {MeanRec(2, 4, 2, Mask4(Gen4(3, 2, 2, 3, G3), msk)) : msk \in Masks4D} >>
+   \o (IF Level = 1 THEN <<>> ELSE
+   << {MeanRec(2, 2, 2, Mask2(ev, msk)) : ev \in Arr2(3, 2, {-2, 0, 1, 3}), msk \in SampleMasks3},
+      {MeanRec(2, 3, 2, Mask3(ev, msk)) : ev \in Arr3(2, 2, 2, {-1, 0, 3}), msk \in Masks3D},
+      {MeanRec(1, 3, 2, Mask3(ev, msk)) : ev \in Arr3(1, 2, 3, {-1, 0, 2, 5}), msk \in MasksFixed},
+      {MeanRec(1, 3, 3, Mask3(ev, msk)) : ev \in Arr3(1, 3, 3, {-1, 2}), msk \in MasksFixed},
+      {MeanRec(2, 4, 3, Mask4(Gen4(3, 3, 3, 2, G1), msk)) : msk \in Masks4D},
+      {MeanRec(2, 4, 2, Mask4(Gen4(3, 2, 2, 2, G3), msk)) :
+          msk \in SUBSET {<<1, 0, 0, 0>>, <<2, 0, 1, 0>>, <<1, 0, 2, 1>>, <<3, 1, 1, 2>>, <<2, 2, 2, 1>>, <<3, 0, 2, 0>>}} >>)
   ELSE <<>>
 
 (* ---------------- per-subject evaluations of a fixed evaluation ------------ *)
@@ -127,19 +126,15 @@ FixRec(k, n, b) == [k |-> k, n |-> n, base |-> b]
 Rows4 == {<<1, 2, 0, -1>>, <<0, 3, 1, 1>>, <<2, 2, -1, 0>>, <<1, 0, 0, 2>>}
 Rows2 == {<<-1, 0>>, <<0, 2>>, <<2, 2>>, <<1, -1>>}
 Rows3 == {<<-1, 0, 2>>, <<0, 0, 2>>, <<2, -1, -1>>, <<1, 1, 1>>, <<0, 2, 1>>, <<-1, -1, 0>>}
-FixedSmall ==
-  {FixRec(1, 3, b) : b \in [1..1 -> Rows3]}
-  \cup {FixRec(2, 2, b) : b \in [1..2 -> Rows2]}
-  \cup {FixRec(2, 3, b) : b \in [1..2 -> Rows3]}
-  \cup {FixRec(3, 4, b) : b \in [1..3 -> Rows4]}
 FixedGrid ==
-  IF Level = 3 THEN <<>>
-  ELSE IF Level = 1 THEN << FixedSmall >>
-  ELSE IF Level = 2 THEN
-   << FixedSmall \cup {FixRec(2, 3, <<a, b>>) : a \in [1..3 -> {-1, 0, 2}], b \in Rows3}
-        \cup {FixRec(2, 5, b) : b \in [1..2 -> {<<0, 1, 2, 3, 5>>, <<2, -1, 0, 4, 1>>, <<1, 1, 1, 2, 1>>,
-                                                  <<-2, 0, 3, 1, 1>>, <<3, 3, 0, 0, 2>>}]}
-        \cup {FixRec(3, 3, b) : b \in [1..3 -> Rows3]}
-        \cup {FixRec(4, 4, b) : b \in [1..4 -> Rows4 \ {<<1, 0, 0, 2>>}]} >>
+  IF Level = 1 \/ Level = 2 THEN
+   << {FixRec(1, 3, b) : b \in [1..1 -> Rows3]}, {FixRec(2, 2, b) : b \in [1..2 -> Rows2]},
+      {FixRec(2, 3, b) : b \in [1..2 -> Rows3]}, {FixRec(3, 4, b) : b \in [1..3 -> Rows4]} >>
+   \o (IF Level = 1 THEN <<>> ELSE
+   << {FixRec(2, 3, <<a, b>>) : a \in [1..3 -> {-1, 0, 2}], b \in Rows3},
+      {FixRec(2, 5, b) : b \in [1..2 -> {<<0, 1, 2, 3, 5>>, <<2, -1, 0, 4, 1>>, <<1, 1, 1, 2, 1>>,
+                                         <<-2, 0, 3, 1, 1>>, <<3, 3, 0, 0, 2>>}]},
+      {FixRec(3, 3, b) : b \in [1..3 -> Rows3]},
+      {FixRec(4, 4, b) : b \in [1..4 -> Rows4 \ {<<1, 0, 0, 2>>}]} >>)
   ELSE <<>>
 =============================================================================
